@@ -433,7 +433,15 @@ func c10exec(k *c10case) string {
 		}
 		return c10idxs(out)
 	}
-	return fmt.Sprintf("ok %s %s %s %s %s %d %d", ev, toIdx(res.Closest, false), toIdx(res.Nodes, false), toIdx(res.Asked, true), toIdx(res.Seen, true), res.Queries, undrained)
+	// the asked set is internal bookkeeping: whether the local id is pre-marked in it is not observable behaviour
+	// ("never ask the local node" is judged on the query events), so it is projected away on both sides
+	askedPeers := make([]enode.ID, 0, len(res.Asked))
+	for _, id := range res.Asked {
+		if v, ok := index[id]; !ok || v != 0 {
+			askedPeers = append(askedPeers, id)
+		}
+	}
+	return fmt.Sprintf("ok %s %s %s %s %s %d %d", ev, toIdx(res.Closest, false), toIdx(res.Nodes, false), toIdx(askedPeers, true), toIdx(res.Seen, true), res.Queries, undrained)
 }
 
 // ---------------------------------------------------------------- generator
